@@ -808,7 +808,7 @@ func c25Judge(t interface {
 		return c25OK
 	}
 	if !rep.Confirmed {
-		fmt.Printf("C25 watchdog expired but no deadlock confirmed (%s)\ncase: %s\n%s\n", rep.Reason, what, c25Trim(rep.Dump))
+		fmt.Printf("C25 watchdog expired but no deadlock confirmed (%s)\ncase: %s\n%s\n", rep.Reason, what, c25Trim(rep.Relevant))
 		kit.ExitInconclusive("C25 watchdog: %s", rep.Reason)
 	}
 	for _, s := range rep.CandidateSigs("C25") {
@@ -816,7 +816,7 @@ func c25Judge(t interface {
 			return c25Known
 		}
 	}
-	t.Fatalf("C25 DEADLOCK sig=%s\ncase: %s\nblocked in: %v\n--- goroutine dump (second of two identical) ---\n%s", rep.Sig("C25"), what, rep.Frames, c25Trim(rep.Dump))
+	t.Fatalf("C25 DEADLOCK sig=%s\ncase: %s\nblocked in: %v\n--- stacks of the stuck operations and of busy bio-rd goroutines (second of two identical dumps) ---\n%s", rep.Sig("C25"), what, rep.Frames, c25Trim(rep.Relevant))
 	return c25OK
 }
 
